@@ -398,7 +398,32 @@ class Ctx:
                         self.assumptions.append(a)
         self.cov['discharged'] = ok
         self.log(f'proved {ok}/{len(thms)} theorems of {props_file}')
+        if self.tier == 'thorough':
+            self.coqchk(props_file)
         return ok == len(thms)
+
+    def coqchk(self, props_file):
+        """Thorough tier: re-check the compiled statements file and everything it depends on with the
+        independent checker and record its context summary (axioms, type-in-type, unsafe fixpoints)."""
+        mod = 'AV.' + props_file[:-2].replace('/', '.')
+        rc, out, dt = _run(['coqchk', '-o', '-silent', '-Q', '.', 'AV', mod], 3000, cwd=COQ)
+        summary = out[out.find('CONTEXT SUMMARY'):] if 'CONTEXT SUMMARY' in out else out[-1500:]
+        self.cov['coqchk'] = {'module': mod, 'rc': rc, 'seconds': round(dt, 1), 'summary': summary.strip()[-1500:]}
+        m = re.search(r'\* Axioms:(.*?)\n\s*\n\* Constants/Inductives relying on type-in-type:(.*?)\n\s*\n'
+                      r'\* Constants/Inductives relying on unsafe \(co\)fixpoints:(.*?)\n\s*\n'
+                      r'\* Inductives whose positivity is assumed:(.*?)$', summary, re.S)
+        if rc != 0 or not m:
+            self.broke('coqchk:' + mod, out)
+            return
+        axioms = [a.strip() for a in m.group(1).strip().split('\n') if a.strip() and a.strip() != '<none>']
+        bad = [a for a in axioms if a.split()[0].split('.')[-1] not in AXIOM_WHITELIST and a.split()[0] not in AXIOM_WHITELIST]
+        others = [g.strip() for g in (m.group(2), m.group(3), m.group(4)) if g.strip() != '<none>']
+        if bad or others:
+            self.broke('coqchk:' + mod, 'axioms: %r; other: %r' % (bad, others))
+        for a in axioms:
+            note = f'coqchk lists axiom {a} in the loaded context'
+            if note not in self.assumptions:
+                self.assumptions.append(note)
 
     # -- stage 3: correspondence inside Coq ----------------------------------------------------
     def coq_cases(self, name, imports, checker, cases, ty=None, shard=400, timeout=900):
